@@ -14,7 +14,8 @@ RULE = ('Model-based stateful testing: generated histories over 2-4 '
         'transports x 3 namespaces of connect, save_session(value), '
         'get_session, session() blocks with generated mutations (set / '
         'delete / nested update), client DISCONNECT, server.disconnect, '
-        'transport loss and reconnects on the same transport (same or other '
+        'nested session() blocks for the same client, transport loss and '
+        'reconnects on the same transport (same or other '
         'namespace) or a new one; both servers. Oracle: a dict model keyed '
         'by the connection (sid): every read equals the model, a freshly '
         'issued sid reads {}, nothing leaks across clients or namespaces. '
@@ -58,6 +59,9 @@ def strategy(tier):
         st.fixed_dictionaries({'op': st.just('save'), 'c': ci, 'v': val}),
         st.fixed_dictionaries({'op': st.just('get'), 'c': ci}),
         st.fixed_dictionaries({'op': st.just('block'), 'c': ci, 'muts': mut}),
+        st.fixed_dictionaries({'op': st.just('nested'), 'c': ci,
+                               'inner': S.leaves_st(), 'outer': S.leaves_st(),
+                               'other': st.one_of(st.none(), ci)}),
         st.fixed_dictionaries({'op': st.just('end'), 'c': ci,
                                'how': st.sampled_from(['cdisc', 'sdisc',
                                                        'lose'])}),
@@ -201,6 +205,48 @@ def _run(case, w):
                     mutate(s)
             mutate(model[ci])
             touched.add(ci)
+            read(ci, 'get')
+        elif k == 'nested':
+            # a session() block opened while another block for the same
+            # client and namespace is still open (a helper called from a
+            # handler): what each block changed must be there after both
+            # have exited
+            oc = None
+            if op['other'] is not None and len(lv) > 1:
+                oc = w.clients[lv[op['other'] % len(lv)]]
+                if oc is c:
+                    oc = None
+            if aio:
+                async def blk():
+                    async with sio.session(c['sid'],
+                                           namespace=c['ns']) as outer:
+                        async with sio.session(c['sid'],
+                                               namespace=c['ns']) as inner:
+                            inner['in'] = copy.deepcopy(op['inner'])
+                        if oc is not None:
+                            async with sio.session(
+                                    oc['sid'], namespace=oc['ns']) as o2:
+                                o2['side'] = 1
+                        outer['out'] = copy.deepcopy(op['outer'])
+                w.do(blk())
+            else:
+                with sio.session(c['sid'], namespace=c['ns']) as outer:
+                    with sio.session(c['sid'], namespace=c['ns']) as inner:
+                        inner['in'] = copy.deepcopy(op['inner'])
+                    if oc is not None:
+                        with sio.session(oc['sid'],
+                                         namespace=oc['ns']) as o2:
+                            o2['side'] = 1
+                    outer['out'] = copy.deepcopy(op['outer'])
+            model[ci]['in'] = copy.deepcopy(op['inner'])
+            model[ci]['out'] = copy.deepcopy(op['outer'])
+            touched.add(ci)
+            if oc is not None:
+                oi = w.clients.index(oc)
+                model[oi]['side'] = 1
+                touched.add(oi)
+            labels['nested_blocks'] = True
+            labels['nontrivial'] = True
             read(ci, 'get')
         elif k == 'end':
             if op['how'] == 'cdisc':
